@@ -25,7 +25,11 @@ from pyarrow import ipc
 
 from harness.common import svcgen
 from harness.common.svcgen import EVENTS, Hdr, ScriptState, _clone, _ev_data, _ev_err, _ev_log, make_input
-from vgi_rpc.rpc import RpcConnection, RpcError, RpcServer, Stream, make_pipe_pair
+from dataclasses import dataclass
+
+from vgi_rpc.rpc import (
+    AnnotatedBatch, CallContext, ExchangeState, OutputCollector, ProducerState, RpcConnection, RpcError, RpcServer, Stream, make_pipe_pair,
+)
 
 
 import enum
@@ -55,7 +59,116 @@ XRET: dict[str, tuple[Any, Any, Any]] = {
     "int_for_dataclass": (int, 7, Hdr),                      # client: "Expected bytes for Hdr" TypeError
     "bytes_for_dataclass": (bytes, b"not an ipc stream", Hdr),   # client: ArrowInvalid while reading the value
     "str_for_enum": (str, "PURPLE", ColorC),                 # client: KeyError
+    "plain_int": (int, 9, int),                              # control / carrier for parameter-type variants (`ptype`)
 }
+
+
+def _play(state: Any, is_exchange: bool, out: OutputCollector) -> None:
+    """One step of the script (same rules as svcgen.ScriptState.process)."""
+    import json as _json
+
+    from vgi_rpc.log import Level
+
+    steps = _json.loads(state.prog)
+    k = state.i
+    state.i = k + 1
+    EVENTS.append(("process", state.tag, k))
+    if k < len(steps):
+        step = steps[k]
+    elif is_exchange:
+        step = {"logs": [], "act": {"emit": {"id": 1000 + k}}}
+    else:
+        step = {"logs": [], "act": "finish"}
+    for lg in step.get("logs", []):
+        out.client_log(Level(lg["level"]), lg["text"], **lg.get("extra", {}))
+    act = step["act"]
+    if act == "finish":
+        for lg in step.get("post", []):
+            out.client_log(Level(lg["level"]), lg["text"], **lg.get("extra", {}))
+        out.finish()
+    elif act == "nothing":
+        return
+    elif "emit" in act or "emit_finish" in act:
+        b = act.get("emit") or act.get("emit_finish")
+        out.emit_pydict({"x": [b["id"]] * b.get("rows", 1)}, metadata=b.get("meta") or None)
+        for lg in step.get("post", []):
+            out.client_log(Level(lg["level"]), lg["text"], **lg.get("extra", {}))
+        if "emit_finish" in act:
+            out.finish()
+    elif "raise" in act:
+        raise svcgen.make_exc(act["raise"])
+
+
+@dataclass
+class ProdScriptState(ProducerState):
+    """The step script as a TYPED producer state (`is_exchange is False` in the method's introspection)."""
+
+    prog: str
+    i: int = 0
+    tag: str = ""
+
+    def produce(self, out: OutputCollector, ctx: CallContext) -> None:
+        _play(self, False, out)
+
+    def on_cancel(self, ctx: CallContext) -> None:
+        EVENTS.append(("on_cancel", self.tag, self.i))
+
+
+@dataclass
+class ExchScriptState(ExchangeState):
+    """The step script as a TYPED exchange state (`is_exchange is True`)."""
+
+    prog: str
+    i: int = 0
+    tag: str = ""
+
+    def exchange(self, input: AnnotatedBatch, out: OutputCollector, ctx: CallContext) -> None:
+        _play(self, True, out)
+
+    def on_cancel(self, ctx: CallContext) -> None:
+        EVENTS.append(("on_cancel", self.tag, self.i))
+
+
+def _stream_ret(kind: str, hdr: bool) -> Any:
+    st = ProdScriptState if kind == "producer" else ExchScriptState
+    return Stream[st, Hdr] if hdr else Stream[st]
+
+
+def add_typed_streams(P: type, impl: Any, methods: list[dict[str, Any]]) -> None:
+    """Stream methods whose state class is a typed ProducerState / ExchangeState (svcgen's are plain StreamState)."""
+    import json as _json
+
+    from vgi_rpc.log import Level
+
+    for m in methods:
+        hdr = bool(m.get("header"))
+        ret = _stream_ret(m["kind"], hdr)
+
+        def proto(self, a: int): ...
+        proto.__annotations__ = {"a": int, "return": ret}
+        proto.__name__ = proto.__qualname__ = m["name"]
+        setattr(P, m["name"], proto)
+
+        def fn(self, a: int, ctx: CallContext, _m=m, _hdr=hdr):
+            EVENTS.append(("invoke", _m["name"], a))
+            for lg in _m.get("init_logs", []):
+                ctx.client_log(Level(lg["level"]), lg["text"], **lg.get("extra", {}))
+            init = _m.get("init", "ok")
+            if isinstance(init, dict) and "raise" in init:
+                raise svcgen.make_exc(init["raise"])
+            if init == "nonstream":
+                return 42
+            cls = ProdScriptState if _m["kind"] == "producer" else ExchScriptState
+            st = cls(prog=_json.dumps(_m["steps"]), i=0, tag=_m["name"])
+            kw: dict[str, Any] = {"output_schema": svcgen.OUT_SCHEMA, "state": st}
+            if _m["kind"] == "exchange":
+                kw["input_schema"] = svcgen.IN_SCHEMA
+            if _hdr and init != "noheader":
+                kw["header"] = Hdr(h=_m.get("hdr", 0))
+            return Stream(**kw)
+        fn.__annotations__ = {"a": int, "ctx": CallContext, "return": ret}
+        fn.__name__ = m["name"]
+        setattr(type(impl), m["name"], fn)
 
 
 def add_xret_methods(P: type, impl: Any, methods: list[dict[str, Any]]) -> None:
@@ -65,9 +178,10 @@ def add_xret_methods(P: type, impl: Any, methods: list[dict[str, Any]]) -> None:
 
     for m in methods:
         sret, value, _cret = XRET[m["xret"]]
+        ptype = str if m.get("ptype") == "str" else int
 
         def proto(self, a: int): ...
-        proto.__annotations__ = {"a": int, "return": sret}
+        proto.__annotations__ = {"a": ptype, "return": sret}
         proto.__name__ = proto.__qualname__ = m["name"]
         setattr(P, m["name"], proto)
 
@@ -76,7 +190,7 @@ def add_xret_methods(P: type, impl: Any, methods: list[dict[str, Any]]) -> None:
             for lg in _m.get("logs", []):
                 ctx.client_log(Level(lg["level"]), lg["text"], **lg.get("extra", {}))
             return _v
-        fn.__annotations__ = {"a": int, "ctx": CallContext, "return": sret}
+        fn.__annotations__ = {"a": ptype, "ctx": CallContext, "return": sret}
         fn.__name__ = m["name"]
         setattr(type(impl), m["name"], fn)
 
@@ -102,9 +216,15 @@ def build_client_protocol(cdesc: dict[str, Any], version: str | None) -> type:
         p = m.get("param", "a")
         if m.get("xret"):
             def cproto(self, a: int): ...
-            cproto.__annotations__ = {"a": int, "return": XRET[m["xret"]][2]}
+            cproto.__annotations__ = {"a": str if m.get("ptype") == "str" else int, "return": XRET[m["xret"]][2]}
             cproto.__name__ = cproto.__qualname__ = m["name"]
             ns[m["name"]] = cproto
+            continue
+        if m.get("typed") and m["kind"] != "unary" and p == "a":
+            def tproto(self, a: int): ...
+            tproto.__annotations__ = {"a": int, "return": _stream_ret(m["kind"], bool(m.get("header")))}
+            tproto.__name__ = tproto.__qualname__ = m["name"]
+            ns[m["name"]] = tproto
             continue
         if m["kind"] == "unary":
             tmpl = _c_unary_a if p == "a" else _c_unary_b
@@ -178,8 +298,10 @@ def run_history(sdesc: dict[str, Any], cdesc: dict[str, Any], script: list[list[
                 deadline: float = 10.0) -> dict[str, Any]:
     EVENTS.clear()
     xm = [m for m in sdesc["methods"] if m.get("xret")]
-    P, impl = svcgen.build({"methods": [m for m in sdesc["methods"] if not m.get("xret")]}, server_version)
+    tm = [m for m in sdesc["methods"] if m.get("typed") and m["kind"] != "unary"]
+    P, impl = svcgen.build({"methods": [m for m in sdesc["methods"] if not m.get("xret") and m not in tm]}, server_version)
     add_xret_methods(P, impl, xm)
+    add_typed_streams(P, impl, tm)
     CP = build_client_protocol(cdesc, client_version)
     CPbad = build_client_protocol(cdesc, bad_version) if bad_version is not None else None
     params = {m["name"]: m.get("param", "a") for m in cdesc["methods"]}
